@@ -143,7 +143,7 @@ Lemma hash_total_refuted :
   exists c, ct_secret c = false /\ ct_data c = Some [("<<", "v")] /\ hash_content c = Err.
 Proof. exists (mkContent false (Some [("<<", "v")]) [] ""). repeat split. Qed.
 
-(* regression (was the witness of hash-yaml-roundtrip-leading-tab until the repair of makeConfigMapValueRNode):
+(* regression (was the witness of hash-yaml-roundtrip-leading-tab until the repair baa93c5 of makeConfigMapValueRNode):
    a value that starts with a TAB and has two lines is hashed *)
 Example hash_leading_tab_regression :
   yaml_rt_fails (sb [9; 120; 10; 121]%N) = true /\
@@ -376,7 +376,10 @@ Proof.
 Qed.
 
 Lemma dict_utf8_view : forall d, dict_utf8 d = true -> dict_utf8 (hash_view d) = true.
-Proof. intros d H. exact H. Qed.
+Proof.
+  unfold dict_utf8, hash_view. induction d as [|p t IH]; cbn; intro H; [reflexivity|].
+  apply andb_true_iff in H as [H1 H2]. destruct (negb (yaml_null_key (fst p))); cbn; [rewrite H1|]; auto.
+Qed.
 
 Definition view_opt (d : option (list (string * string))) := option_map hash_view d.
 Definition opt_utf8 (d : option (list (string * string))) : bool :=
@@ -431,12 +434,28 @@ Qed.
 
 (* ------------------------------------------------------------------ injectivity of the content encoding *)
 
+Definition no_null_keys (d : list (string * string)) : bool :=
+  forallb (fun kv => negb (yaml_null_key (fst kv))) d.
+
+Lemma hash_view_id : forall d, no_null_keys d = true -> hash_view d = d.
+Proof.
+  unfold no_null_keys, hash_view. induction d as [|p t IH]; cbn; intro H; [reflexivity|].
+  apply andb_true_iff in H as [H1 H2]. rewrite H1, (IH H2). reflexivity.
+Qed.
+
+Definition content_no_null (c : content) : bool :=
+  match ct_data c with None => true | Some m => no_null_keys m end && no_null_keys (ct_bin c).
+
 (* fields the kind does not have are empty (as [content_of] builds them) *)
 Definition content_norm (c : content) : Prop :=
   if ct_secret c then ct_bin c = [] else ct_type c = "".
 
-Lemma view_opt_id : forall d d', view_opt d = view_opt d' -> d = d'.
-Proof. intros [m|] [m'|] E; cbn in E; try discriminate; [|reflexivity]. unfold hash_view in E. exact E. Qed.
+Lemma view_opt_id : forall d d', match d with None => true | Some m => no_null_keys m end = true ->
+  match d' with None => true | Some m => no_null_keys m end = true -> view_opt d = view_opt d' -> d = d'.
+Proof.
+  intros [m|] [m'|] H H' E; cbn in E; try discriminate; [|reflexivity].
+  rewrite (hash_view_id _ H), (hash_view_id _ H') in E. exact E.
+Qed.
 
 Lemma encode_kind_differs : forall c c', content_utf8 c = true -> content_utf8 c' = true ->
   encode_cm c = encode_secret c' -> False.
@@ -453,32 +472,36 @@ Proof.
   - apply sapp_inv_head in H. rewrite !sapp_assoc in H. cbn [append] in H. discriminate H.
 Qed.
 
-(* C06_encode_injective: on UTF-8 contents equal encodings mean equal contents — a name collision under a content
-   change is a collision of the truncated SHA-256 *)
+(* C06_encode_injective (partial): on contents none of whose keys is a YAML null spelling, equal encodings mean
+   equal contents — a name collision under a content change is then a collision of the truncated SHA-256 *)
 Lemma encode_content_inj : forall c c',
   content_utf8 c = true -> content_utf8 c' = true ->
   content_norm c -> content_norm c' ->
+  content_no_null c = true -> content_no_null c' = true ->
   encode_content c = encode_content c' -> c = c'.
 Proof.
-  intros c c' Hu Hu' Hn Hn' H.
+  intros c c' Hu Hu' Hn Hn' Hk Hk' H.
+  unfold content_no_null in Hk, Hk'. apply andb_true_iff in Hk as [Kd Kb], Hk' as [Kd' Kb'].
   unfold encode_content, content_norm in *.
   destruct c as [s d b t], c' as [s' d' b' t']. cbn [ct_secret ct_data ct_bin ct_type] in *.
   destruct s, s'.
   - apply encode_secret_inj in H as [E1 E2]; try assumption. cbn [ct_data ct_type] in E1, E2.
-    apply view_opt_id in E1. subst. reflexivity.
+    apply view_opt_id in E1; try assumption. subst. reflexivity.
   - exfalso. symmetry in H. eapply encode_kind_differs; [| |exact H]; assumption.
   - exfalso. eapply encode_kind_differs; [| |exact H]; assumption.
   - apply encode_cm_inj in H; try assumption. unfold cm_view in H. cbn [ct_data ct_bin] in H.
-    injection H as E1 E2. apply view_opt_id in E2. subst.
+    injection H as E1 E2. apply view_opt_id in E2; try assumption. subst.
     assert (Eb : b = b').
     { destruct b as [|p b], b' as [|p' b']; try discriminate E1; [reflexivity|].
-      unfold hash_view in E1. injection E1 as E1 E1'. congruence. }
+      change (Some (hash_view (p :: b)) = Some (hash_view (p' :: b'))) in E1.
+      rewrite (hash_view_id _ Kb), (hash_view_id _ Kb') in E1. injection E1 as E1 E1'. congruence. }
     subst. reflexivity.
 Qed.
 
-(* regression (was the witness of hash-ignores-null-named-keys until data keys were tagged as strings): entries
-   under a key spelled null reach the encoding *)
-Example encode_null_key_regression :
-  encode_content (mkContent false (Some [("null", "a")]) [] "") <>
-  encode_content (mkContent false (Some [("null", "b")]) [] "").
-Proof. vm_compute. discriminate. Qed.
+(* C06_encode_injective (refuted in full): entries under a key spelled null do not reach the encoding *)
+Lemma encode_content_inj_refuted : exists c c',
+  content_utf8 c = true /\ content_utf8 c' = true /\ content_norm c /\ content_norm c' /\ c <> c' /\ encode_content c = encode_content c'.
+Proof.
+  exists (mkContent false (Some [("null", "a")]) [] ""), (mkContent false (Some [("null", "b")]) [] "").
+  repeat split; try reflexivity. discriminate.
+Qed.
